@@ -60,6 +60,16 @@ Theorem C05_static_exact : forall (V : Type) (pats : list (bytes * V)) k v, wf_p
 Proof. exact @router_static_exact. Qed.
 Print Assumptions C05_static_exact.
 
+(* ... and by no other path: when the reported pattern is parameter-free (is_param_key false - it may
+   well hold ':' or '*' inside a segment, only "/:", "/*" and "=:" open a placeholder) the path is
+   that pattern, byte for byte, and no parameter is reported *)
+Theorem C05_static_only_itself : forall (V : Type) (pats : list (bytes * V)) p v ps, wf_patset pats = true ->
+  router_lookup pats p = Found v ps ->
+  exists k, In (k, v) pats /\ map fst ps = names_of k /\ subst (shape_of k) (map snd ps) = Some p /\
+    (is_param_key k = false -> p = k /\ ps = []).
+Proof. exact @router_static_only_itself. Qed.
+Print Assumptions C05_static_only_itself.
+
 (* where a literal and a parameter both lead to a match the literal wins (and the single-segment
    parameter wins against the wildcard): the reported pattern is preferred to every other matching one *)
 Theorem C05_literal_wins : forall (V : Type) (pats : list (bytes * V)) p v ps, wf_patset pats = true ->
@@ -128,6 +138,17 @@ Theorem C05_model_total : forall (V : Type) (pats : list (bytes * V)) p, wf_pats
 Proof. exact @router_total. Qed.
 Print Assumptions C05_model_total.
 
+(* the correspondence run evaluates, per case, variants of router_lookup / da_router_lookup / answer_ok
+   that take the static records, the model trie and the tokenised table as arguments (computed once per
+   table instead of once per path; the conjunction of answer_ok evaluated lazily): they are the definitions
+   used in the theorems above *)
+Theorem C05_check_shortcuts : forall (V : Type) (veqb : V -> V -> bool) (pats : list (bytes * V)) p f (d : da V) ans,
+  router_lookup_pre (statics_of pats) (model_trie pats) p = router_lookup pats p /\
+  da_router_lookup_pre f (statics_of pats) d p = da_router_lookup f pats d p /\
+  answer_ok_pre veqb (entries_of pats) p ans = answer_ok veqb pats p ans.
+Proof. exact @check_shortcuts. Qed.
+Print Assumptions C05_check_shortcuts.
+
 (* non-vacuity: the table of the design note is in the domain, and its lookups are as expected *)
 Definition ex_table : list (bytes * nat) :=
   [ ([47;97;47;58;105;100], 0);                       (* /a/:id *)
@@ -153,3 +174,25 @@ Definition ex_da : da nat := mkDA
 Theorem C05_example_repr : repr_ok Nat.eqb ex_table ex_da = true.
 Proof. vm_compute. reflexivity. Qed.
 Print Assumptions C05_example_repr.
+
+(* non-vacuity for reserved bytes inside a segment: /v1/op:list and /g/a*b are parameter-free keys (the
+   ':' and '*' follow neither '/' nor '='), matched by themselves only; in /v1/op:list/:id, which is
+   parameterised, the same ':' opens a parameter named list, as in Build. The same table is part of the
+   enumerated cases of the correspondence run. *)
+Definition ex_table_mid : list (bytes * nat) :=
+  [ ([47;118;49;47;111;112;58;108;105;115;116], 0);        (* /v1/op:list *)
+    ([47;118;49;47;111;112;47;58;105;100], 1);                 (* /v1/op/:id *)
+    ([47;103;47;97;42;98], 2);                          (* /g/a*b *)
+    ([47;118;49;47;111;112;58;108;105;115;116;47;58;105;100], 3) ]. (* /v1/op:list/:id *)
+Theorem C05_example_midsegment :
+  wf_patset ex_table_mid = true /\
+  is_param_key [47;118;49;47;111;112;58;108;105;115;116] = false /\ is_param_key [47;103;47;97;42;98] = false /\
+  router_lookup ex_table_mid [47;118;49;47;111;112;58;108;105;115;116] = Found 0 [] /\
+  router_lookup ex_table_mid [47;103;47;97;42;98] = Found 2 [] /\
+  router_lookup ex_table_mid [47;118;49;47;111;112;88;89;90] = NotFound /\      (* /v1/opXYZ *)
+  router_lookup ex_table_mid [47;103;47;97;47;98;47;99] = NotFound /\      (* /g/a/b/c *)
+  router_lookup ex_table_mid [47;103;47;97;120;98] = NotFound /\      (* /g/axb *)
+  router_lookup ex_table_mid [47;118;49;47;111;112;47;55] = Found 1 [([105;100], [55])] /\    (* /v1/op/7 *)
+  router_lookup ex_table_mid [47;118;49;47;111;112;88;47;55] = Found 3 [([108;105;115;116], [88]); ([105;100], [55])].   (* /v1/opX/7 *)
+Proof. vm_compute. repeat split. Qed.
+Print Assumptions C05_example_midsegment.
